@@ -751,10 +751,137 @@ def check_rebatch(ctx):
         shutil.rmtree(tmp, ignore_errors=True)
 
 
+def check_rebatch_model(ctx):
+    """re-batched stores INSIDE the Lean model (Model/NpyRebatch.lean, theorems rebatch_view / rebatch_refines /
+    rebatch_tail_untouched): a flushed file of any row count reopened with any batch size, then a history of whole-batch
+    set / del / clear / flush operations.  Compared with the real NpyStore per operation: refused or not, the batches exposed
+    afterwards, and after every flush what numpy.load returns; the driver also evaluates the reference semantics `specRunT`
+    of the theorem on the same history (model = spec is the theorem; both are compared with the code)."""
+    rng = ctx.rng
+    tmp = tempfile.mkdtemp(prefix='c06m-')
+    reqs, metas = [], []
+    try:
+        for it in range(ctx.budget(40, 400)):
+            b1, b2 = rng.sample([1, 2, 3, 4, 5, 7], 2)
+            k = rng.randint(0 if it % 9 == 8 else 1, 5)
+            if it < 6:
+                b1, k, b2 = [(7, 5, 10), (3, 3, 2), (2, 3, 4), (5, 1, 3), (3, 2, 4), (4, 3, 5)][it]
+            path = os.path.join(tmp, 'm%d.npy' % it)
+            st = NpyStore(path, b1)
+            rows = []
+            for i in range(max(k, 1)):
+                vals = [100 * (i + 1) + r for r in range(b1)]
+                st[i] = np.array(vals, dtype='f8')
+                rows += vals
+            if k == 0:
+                del st[0]
+                rows = []
+            st.close()
+            st = NpyStore(path, b2)
+            n = len(rows) // b2
+            ops, obs = [], []
+            view = [np.asarray(st[i]).tolist() for i in range(len(st))]
+            tok = 1000
+            for _ in range(rng.randint(1, 6)):
+                kind = rng.choice(['append', 'append', 'overwrite', 'overwrite', 'del', 'del_other', 'flush', 'clear', 'far'])
+                tok += 10
+                batch = [tok + r for r in range(b2)]
+                cur = len(st)
+                if kind == 'append':
+                    op = dict(op='set', i=cur, batch=batch)
+                elif kind == 'overwrite':
+                    op = dict(op='set', i=rng.randrange(cur) if cur else 0, batch=batch)
+                elif kind == 'far':
+                    op = dict(op='set', i=cur + rng.randint(1, 2), batch=batch)
+                elif kind == 'del':
+                    op = dict(op='del', i=max(cur - 1, 0))
+                elif kind == 'del_other':
+                    op = dict(op='del', i=rng.choice([0, cur, cur + 1]))
+                elif kind == 'clear' and rng.random() < 0.4:
+                    op = dict(op='clear')
+                else:
+                    op = dict(op='flush')
+                err = False
+                try:
+                    if op['op'] == 'set':
+                        st[op['i']] = np.array(op['batch'], dtype='f8')
+                    elif op['op'] == 'del':
+                        del st[op['i']]
+                    elif op['op'] == 'clear':
+                        st.clear()
+                    else:
+                        st.flush()
+                except (IndexError, ValueError):
+                    err = True
+                ob = dict(err=err, content=[np.asarray(st[i]).tolist() for i in range(len(st))])
+                if op['op'] == 'flush' and not err:
+                    ob['load'] = np.load(path).tolist()
+                ops.append(op)
+                obs.append(ob)
+            st.close()
+            final = np.load(path).tolist()
+            case = dict(kind='rebatch-model', b_written=b1, batches_written=k, b_reopened=b2, ops=ops)
+            ctx.case(case, len(rows) % b2 != 0)
+            ctx.count('rebatchm.tail_rows', len(rows) % b2)
+            for o in ops:
+                ctx.count('rebatchm.op', o['op'])
+            reqs.append(dict(op='C06.rebatch', rows=[int(v) for v in rows], b=b2, ops=ops))
+            metas.append((case, view, obs, final))
+        if not ctx.driver_ok:
+            return
+        for (case, view, obs, final), a in zip(metas, ctx.lean.drive(reqs)):
+            if 'ok' not in a:
+                ctx.corr_break('rebatch.driver', case, 'an answer', a)
+                continue
+            a = a['ok']
+            if view != a['view'] or a['view'] != a['chunks']:
+                ctx.corr_break('rebatch.view', case, a['view'], view)
+                want = a['chunks']
+                if view != want:
+                    ctx.fail_input(case, 'a file reopened with batch size %d exposes %s; its rows cut into complete batches are %s'
+                                   % (case['b_reopened'], view, want), want, view)
+                continue
+            for k, (ob, mo, sp) in enumerate(zip(obs, a['model'], a['spec'])):
+                ctx.count('rebatchm.refused', ob['err'])
+                if (mo['err'], mo['content']) != (sp['err'], sp['content']):
+                    ctx.corr_break('rebatch.model_vs_spec', dict(case, at=k), sp, mo)       # would contradict the theorem
+                    break
+                if ob['err'] != mo['err'] or ob['content'] != mo['content']:
+                    ctx.corr_break('rebatch.step', dict(case, at=k), dict(err=mo['err'], content=mo['content']), ob)
+                    # the property itself, stated on the in-memory sequence: a refused operation changes nothing; an accepted
+                    # one yields the sequence with that batch written / dropped
+                    prev = obs[k - 1]['content'] if k else view
+                    o = case['ops'][k]
+                    if ob['err']:
+                        exp = prev
+                    elif o['op'] == 'set':
+                        exp = prev[:o['i']] + [[float(v) for v in o['batch']]] + prev[o['i'] + 1:]
+                    elif o['op'] == 'del':
+                        exp = prev[:-1]
+                    elif o['op'] == 'clear':
+                        exp = []
+                    else:
+                        exp = prev
+                    if ob['content'] != exp:
+                        ctx.fail_input(dict(case, at=k), 'after operation %d (%s) the re-batched store exposes %s, the in-memory sequence is %s'
+                                       % (k, o['op'], ob['content'], exp), exp, ob['content'])
+                    break
+                if 'load' in ob and mo['load'] is not None and ob['load'] != mo['load']:
+                    ctx.corr_break('rebatch.load', dict(case, at=k), mo['load'], ob['load'])
+                    flat = [v for bt in ob['content'] for v in bt]
+                    if ob['load'][:len(flat)] != flat:
+                        ctx.fail_input(dict(case, at=k), 'after flush numpy.load starts with %s, the store exposes %s'
+                                       % (ob['load'][:len(flat)], flat), flat, ob['load'])
+                    break
+    finally:
+        shutil.rmtree(tmp, ignore_errors=True)
+
+
 def run(ctx):
     process(ctx, gen_cases(ctx, ctx.budget(220, 1500)), ctx.budget(0.34, 1.0))
     check_pool(ctx)
     check_rebatch(ctx)
+    check_rebatch_model(ctx)
 
 
 def search(ctx):
